@@ -31,7 +31,7 @@ def same(fn, a, b):
     return (a["k"], a.get("v")) == (b["k"], b.get("v"))
 
 
-def measured_values(fn, w):
+def measured_values(fn, w, memory_counter=False):
     """[(value whose byte width is computed, width result operand, site)]: calls of a pure one-integer-argument width function,
     and byte-count loops  `v = V0; enc = 1; while ((v >>= 8) != 0) enc++`"""
     out = []
@@ -55,6 +55,11 @@ def measured_values(fn, w):
             if bi.op == "lshr" and bi.ops[1]["k"] == "int" and int(bi.ops[1]["v"]) == 8 and same(fn, bi.ops[0], {"k": "inst", "v": p.id}): vphi = (p, outside[0]["v"])
             if bi.op == "add" and bi.ops[1]["k"] == "int" and int(bi.ops[1]["v"]) == 1 and same(fn, bi.ops[0], {"k": "inst", "v": p.id}) \
                     and outside[0]["v"]["k"] == "int" and int(outside[0]["v"]["v"]) == 1: cphi = p
+        if vphi and not cphi and memory_counter:
+            # the count is kept in memory (`obj->width = 1; while ((v >>= 8) != 0) obj->width++`): the measured value is still known
+            v0 = vphi[1]; sv = strip(fn, v0)
+            if sv["k"] == "inst" and fn.imap[sv["v"]].op == "lshr" and fn.imap[sv["v"]].ops[1]["k"] == "int" and int(fn.imap[sv["v"]].ops[1]["v"]) == 8: v0 = fn.imap[sv["v"]].ops[0]
+            out.append((v0, None, hb.insts[0], []))
         if vphi and cphi:
             v0 = vphi[1]
             sv = strip(fn, v0)
@@ -300,6 +305,24 @@ def analyse(mod, run, label, skip=()):
         if not cmps:
             run.fail(Finding("R2-no-width-check", fn.name, "put", "guard", "no branch compares the new width with the old width: the write at %s happens whatever the sum needs (a no-grow add can outgrow its slot)" % loc(puts[0]), loc=loc(puts[0])))
             continue
+        # ---- R5: the width the new one is compared with is the width of what is stored: it comes from the bytes at p (the length the
+        # decoder returned, the tag byte) or from the caller (external format) - not from re-measuring the decoded value, which is the
+        # minimal width and is smaller than the slot when the value was stored wider than necessary
+        def from_encoding(o, d=0):
+            if d > 6: return False
+            if o["k"] == "arg": return o["v"] not in summands
+            if o["k"] != "inst": return False
+            x = fn.imap[o["v"]]
+            if x.op in ("zext", "sext", "trunc", "and", "lshr", "add", "sub") : return from_encoding(x.ops[0], d + 1)
+            if x.op == "call": return any(x.ops[n2]["t"].endswith("*") and w.fi(fn).ptr(x.ops[n2])[0] == ("arg", pk) for n2 in range(x["nargs"]))
+            if x.op == "load": return w.fi(fn).ptr(x.ops[0])[0] == ("arg", pk)
+            if x.op == "phi": return all(from_encoding(inc["v"], d + 1) for inc in x["incoming"])
+            return False
+        for (b0, ci) in cmps:
+            old = ci.ops[1] if is_new(ci.ops[0]) else ci.ops[0]
+            run.check(from_encoding(old), "R5-old-width-is-read-from-the-encoding", {"fn": fn.name, "compare": loc(ci)},
+                      Finding("R5-old-width-not-from-encoding", fn.name, "width-compare", "old-width",
+                              "the width the sum's width is compared with at %s does not come from the stored bytes (decoder's returned length / tag byte) or from the caller: a value stored wider than its minimal width is then treated as a smaller slot, sums that fit are refused or the reported width is wrong" % loc(ci), loc=loc(ci)))
         for (b0, ci) in cmps:
             exact = fits_when(ci, True)[1]
             run.check(exact, "R4-refusal-only-when-strictly-larger", {"fn": fn.name, "compare": "%s at %s" % (ci["pred"], loc(ci))},
